@@ -1,4 +1,5 @@
 import SqlgrepModel.Lemmas.NoPanic
+import SqlgrepModel.Lemmas.NoPanicEngine
 import SqlgrepModel.Props.C03
 /-
 C09 — execution is total: results or an error message, never a crash, never a silently wrapped number.
@@ -74,5 +75,84 @@ example : eval {} {} (.arith .mul (.value (.int 3037000500)) (.value (.int 30370
 example : eval {} {} (.neg (.value (.int (-9223372036854775808)))) = .error .undefinedOperation := by rfl
 example : eval {} {} (.call .pow [.value (.int 3), .value (.int 70)]) = .error .undefinedFunction := by rfl
 example : mkInterval 9999999999999999 0 0 = none := by rfl
+
+/-! ### statement level: a whole batch run never panics -/
+
+open Sqlgrep.NoPanicEngine in
+/-- **C09 at the level of a whole run.** For every statement (SELECT or aggregate, with WHERE / GROUP BY / HAVING /
+DISTINCT / LIMIT / JOIN), every table, every joined file, every list of input files with any rows, every
+interrupt point and all oracle tables, a batch run ends with records or a reported error — never in a panic.
+The two indexing sites of `execute_result` (`group_key_mapping[&hash]`, `group_key.0[index]`) are shown
+unreachable through the invariant `Inv` (a group exists only after an update that validated every `GroupKey`
+item, and every stored key has one value per GROUP BY part). -/
+theorem run_never_panics (O : Oracles) (qy : Query) (joined : List FileLine) (files : List (List FileLine))
+    (stopAt : Option Nat) : (runBatch O qy joined files stopAt).panicked = false := by
+  have hfw : ∀ (o : Outcome JoinIndex), NP o → (failWith ({} : RunOut) o).panicked = false :=
+    fun o hn => failWith_panicked {} o hn rfl
+  have body : ∀ idx : JoinIndex, ∀ w : Bool,
+      LInv qy (runFiles O qy idx w stopAt files {}) := fun idx w =>
+    runFiles_inv O qy idx w stopAt files {} ⟨rfl, EInv.init qy⟩
+  unfold runBatch
+  cases hq : qy.stmt with
+  | select q =>
+    cases hj : qy.join with
+    | none => dsimp only; split <;> exact (body _ _).np
+    | some j =>
+      dsimp only
+      have hn := NP_setupJoin qy.table j joined
+      cases hs : setupJoin qy.table j (loadJoinFile j joined) with
+      | ok idx => dsimp only; split <;> exact (body _ _).np
+      | error k => rfl
+      | panic s => rw [hs] at hn; simp [NP, Outcome.isPanic] at hn
+      | oracleMissing w => rfl
+  | aggregate q =>
+    have fin : ∀ idx : JoinIndex, ∀ w : Bool,
+        (match finalResult O q (runFiles O qy idx w stopAt files {}).es with
+          | .ok r => { (runFiles O qy idx w stopAt files {}).out with
+              printed := (runFiles O qy idx w stopAt files {}).out.printed ++ printResult r true }
+          | o => failWith (runFiles O qy idx w stopAt files {}).out o).panicked = false := by
+      intro idx w
+      have hl := body idx w
+      have hinv : Inv q (runFiles O qy idx w stopAt files {}).es.agg := by
+        have := hl.es; unfold EInv at this; rw [hq] at this; exact this
+      have hn := NP_finalResult O q _ hinv
+      cases hf : finalResult O q (runFiles O qy idx w stopAt files {}).es with
+      | ok r => exact hl.np
+      | error k => exact hl.np
+      | panic s => rw [hf] at hn; simp [NP, Outcome.isPanic] at hn
+      | oracleMissing w => exact hl.np
+    cases hj : qy.join with
+    | none =>
+      dsimp only
+      split
+      · exact (body _ _).np
+      · exact fin _ _
+    | some j =>
+      dsimp only
+      have hn := NP_setupJoin qy.table j joined
+      cases hs : setupJoin qy.table j (loadJoinFile j joined) with
+      | ok idx =>
+        dsimp only
+        split
+        · exact (body _ _).np
+        · exact fin _ _
+      | error k => rfl
+      | panic s => rw [hs] at hn; simp [NP, Outcome.isPanic] at hn
+      | oracleMissing w => rfl
+
+/-- line-at-a-time execution (follow mode): from a state reached by successful steps, the next step never panics -/
+theorem step_never_panics (O : Oracles) (qy : Query) (idx : JoinIndex) (w : Bool) (es : EngineState) (l : Line)
+    (h : Sqlgrep.NoPanicEngine.EInv qy es) : ∀ site, executeLine O qy idx w es l ≠ .panic site := by
+  intro site hx
+  have := Sqlgrep.NoPanicEngine.NP_executeLine O qy idx w es l h
+  rw [hx] at this
+  simp [NP, Outcome.isPanic] at this
+
+/-- … and the invariant needed for the next step holds again (so it holds along every run from the initial state) -/
+theorem step_keeps_invariant (O : Oracles) (qy : Query) (idx : JoinIndex) (w : Bool) (es es' : EngineState) (l : Line)
+    (lo : LineOut) (h : Sqlgrep.NoPanicEngine.EInv qy es) (hx : executeLine O qy idx w es l = .ok (es', lo)) :
+    Sqlgrep.NoPanicEngine.EInv qy es' := Sqlgrep.NoPanicEngine.executeLine_inv hx h
+
+example (qy : Query) : Sqlgrep.NoPanicEngine.EInv qy {} := Sqlgrep.NoPanicEngine.EInv.init qy
 
 end Sqlgrep.Props.C09
